@@ -137,10 +137,25 @@ structure Clean (l : FLink F) : Prop where
   inFlight : l.core.inFlight = 0
   connected : l.core.connected = false
 
+/-- The per-link copy of the connection timeout is unchanged, or was stamped with `cto` (the
+configured value, by a selection pass). -/
+def TOk (cto : Option Nat) (a b : FLink F) : Prop :=
+  b.connTimeoutMs = a.connTimeoutMs ∨ cto = some b.connTimeoutMs
+
+theorem TOk.refl (cto : Option Nat) (a : FLink F) : TOk cto a a := Or.inl rfl
+
+theorem TOk.trans {cto : Option Nat} {a b c : FLink F} (h1 : TOk cto a b) (h2 : TOk cto b c) : TOk cto a c := by
+  rcases h2 with e | e
+  · rcases h1 with e' | e'
+    · exact Or.inl (e.trans e')
+    · exact Or.inr (by rw [e]; exact e')
+  · exact Or.inr e
+
 /-- Everything that is NOT a tear-down, a reconnect attempt or a REG3 keeps these facts about a link.
 `hc` = registration completed (`reg.has_connected`): only then is cleanliness of a `Registering`
 link preserved (before, pre-registration forwarding uses `Registering` links). -/
-structure Evolves (hc : Bool) (l l' : FLink F) : Prop where
+structure Evolves (hc : Bool) (cto : Option Nat) (l l' : FLink F) : Prop where
+  timeout : TOk cto l l'
   established : l'.established = l.established
   lastAttempt : l'.lastAttemptMs = l.lastAttemptMs
   failCount : l'.failCount = l.failCount
@@ -149,24 +164,24 @@ structure Evolves (hc : Bool) (l l' : FLink F) : Prop where
   phaseReg : l'.core.phase = .registering ↔ l.core.phase = .registering
   clean : hc = true → l.core.phase = .registering → Clean l → Clean l'
 
-theorem Evolves.refl (hc : Bool) (l : FLink F) : Evolves hc l l :=
-  ⟨rfl, rfl, rfl, rfl, rfl, Iff.rfl, fun _ _ h => h⟩
+theorem Evolves.refl (hc : Bool) (cto : Option Nat) (l : FLink F) : Evolves hc cto l l :=
+  ⟨Or.inl rfl, rfl, rfl, rfl, rfl, rfl, Iff.rfl, fun _ _ h => h⟩
 
-theorem Evolves.trans {hc : Bool} {a b c : FLink F} (h1 : Evolves hc a b) (h2 : Evolves hc b c) :
-    Evolves hc a c :=
-  ⟨h2.established.trans h1.established, h2.lastAttempt.trans h1.lastAttempt,
+theorem Evolves.trans {hc : Bool} {cto : Option Nat} {a b c : FLink F} (h1 : Evolves hc cto a b) (h2 : Evolves hc cto b c) :
+    Evolves hc cto a c :=
+  ⟨h1.timeout.trans h2.timeout, h2.established.trans h1.established, h2.lastAttempt.trans h1.lastAttempt,
    h2.failCount.trans h1.failCount, h2.connected.trans h1.connected, h2.connId.trans h1.connId,
    h2.phaseReg.trans h1.phaseReg,
    fun hc' hp hcl => h2.clean hc' (h1.phaseReg.mpr hp) (h1.clean hc' hp hcl)⟩
 
-theorem Evolves.weaken {hc : Bool} {a b : FLink F} (h : Evolves hc a b) : Evolves false a b :=
-  ⟨h.established, h.lastAttempt, h.failCount, h.connected, h.connId, h.phaseReg, fun h' => by cases h'⟩
+theorem Evolves.weaken {hc : Bool} {cto : Option Nat} {a b : FLink F} (h : Evolves hc cto a b) : Evolves false cto a b :=
+  ⟨h.timeout, h.established, h.lastAttempt, h.failCount, h.connected, h.connId, h.phaseReg, fun h' => by cases h'⟩
 
 /-- A change that touches neither the accounting core nor the queue nor the reconnection state. -/
-theorem Evolves.of_soft {hc : Bool} {l l' : FLink F} (hcore : l'.core = l.core) (hq : l'.queue = l.queue)
+theorem Evolves.of_soft {hc : Bool} {cto : Option Nat} {l l' : FLink F} (hcore : l'.core = l.core) (hq : l'.queue = l.queue)
     (he : l'.established = l.established) (ha : l'.lastAttemptMs = l.lastAttemptMs)
-    (hf : l'.failCount = l.failCount) : Evolves hc l l' :=
-  ⟨he, ha, hf, by rw [hcore], by rw [hcore], by rw [hcore],
+    (hf : l'.failCount = l.failCount) (ht : l'.connTimeoutMs = l.connTimeoutMs) : Evolves hc cto l l' :=
+  ⟨Or.inl ht, he, ha, hf, by rw [hcore], by rw [hcore], by rw [hcore],
    fun _ _ h => ⟨by rw [hcore]; exact h.window, by rw [hcore]; exact h.log, by rw [hq]; exact h.queue,
      by rw [hcore]; exact h.inFlight, by rw [hcore]; exact h.connected⟩⟩
 
@@ -186,9 +201,9 @@ theorem CoreEvolves.trans {a b c : Conn} (h1 : CoreEvolves a b) (h2 : CoreEvolve
      obtain ⟨w', lg', i'⟩ := h1.clean w lg i cn
      exact h2.clean w' lg' i' (h1.connected.trans cn)⟩
 
-theorem Evolves.of_core {hc : Bool} {l : FLink F} {c' : Conn} (h : CoreEvolves l.core c') :
-    Evolves hc l { l with core := c' } :=
-  ⟨rfl, rfl, rfl, h.connected, h.connId, h.phaseReg,
+theorem Evolves.of_core {hc : Bool} {cto : Option Nat} {l : FLink F} {c' : Conn} (h : CoreEvolves l.core c') :
+    Evolves hc cto l { l with core := c' } :=
+  ⟨Or.inl rfl, rfl, rfl, rfl, h.connected, h.connId, h.phaseReg,
    fun _ _ hcl => by
      obtain ⟨w', lg', i'⟩ := h.clean hcl.window hcl.log hcl.inFlight hcl.connected
      exact ⟨w', lg', hcl.queue, i', h.connected.trans hcl.connected⟩⟩
@@ -327,21 +342,23 @@ theorem pw_foldl {α β : Type} {R : α → α → Prop} (hrefl : ∀ a, R a a) 
 
 /-! ### link operations -/
 
-theorem ev_absorb (hc : Bool) (l : FLink F) (x : SLink F) : Evolves hc l (l.absorb x) :=
-  Evolves.of_soft rfl rfl rfl rfl rfl
+theorem ev_absorb (hc : Bool) (l : FLink F) (x : SLink F) :
+    Evolves hc (some x.connTimeoutMs) l (l.absorb x) :=
+  ⟨Or.inr rfl, rfl, rfl, rfl, rfl, rfl, Iff.rfl,
+   fun _ _ h => ⟨h.window, h.log, h.queue, h.inFlight, h.connected⟩⟩
 
-theorem ev_stallProbeDue (hc : Bool) (l : FLink F) : Evolves hc l l.stallProbeDue.1 := by
+theorem ev_stallProbeDue (hc : Bool) (cto : Option Nat) (l : FLink F) : Evolves hc cto l l.stallProbeDue.1 := by
   unfold FLink.stallProbeDue
   dsimp only
-  split <;> exact Evolves.of_soft rfl rfl rfl rfl rfl
+  split <;> exact Evolves.of_soft rfl rfl rfl rfl rfl rfl
 
 /-- Queueing a datagram: fine unless it is put on a clean `Registering` link after registration
 completed (which the callers exclude: the selectors only return schedulable links, probes need a
 connected link). -/
-theorem ev_queue (hc : Bool) (l : FLink F) (data : Link.Bytes) (seq : Option Nat) (t : Nat)
+theorem ev_queue (hc : Bool) (cto : Option Nat) (l : FLink F) (data : Link.Bytes) (seq : Option Nat) (t : Nat)
     (hside : hc = true → l.core.phase ≠ .registering ∨ l.core.connected = true) :
-    Evolves hc l (l.queueDataPacket data seq t).1 := by
-  refine ⟨rfl, rfl, rfl, rfl, rfl, Iff.rfl, fun h hp hcl => ?_⟩
+    Evolves hc cto l (l.queueDataPacket data seq t).1 := by
+  refine ⟨Or.inl rfl, rfl, rfl, rfl, rfl, rfl, Iff.rfl, fun h hp hcl => ?_⟩
   rcases hside h with h1 | h1
   · exact absurd hp h1
   · rw [hcl.connected] at h1; cases h1
@@ -376,13 +393,13 @@ theorem takeBatch_eq (l : FLink F) (now : Nat) :
       else ({ l with lastFlushMs := now, core := { l.queue.foldl regFold l.core with lastSent := some now },
                      queue := [] }, l.queue) := rfl
 
-theorem ev_takeBatch (hc : Bool) (l : FLink F) (now : Nat) : Evolves hc l (l.takeBatch now).1 := by
+theorem ev_takeBatch (hc : Bool) (cto : Option Nat) (l : FLink F) (now : Nat) : Evolves hc cto l (l.takeBatch now).1 := by
   rw [takeBatch_eq]
   split
-  · exact Evolves.of_soft rfl rfl rfl rfl rfl
+  · exact Evolves.of_soft rfl rfl rfl rfl rfl rfl
   · rename_i hq
     obtain ⟨h1, h2, h3, -, -, -⟩ := foldl_register_frame l.queue l.core
-    refine ⟨rfl, rfl, rfl, h1, h2, by simp only []; rw [h3], fun _ _ hcl => ?_⟩
+    refine ⟨Or.inl rfl, rfl, rfl, rfl, h1, h2, by simp only []; rw [h3], fun _ _ hcl => ?_⟩
     rw [hcl.queue] at hq; simp at hq
 
 theorem takeBatch_window (l : FLink F) (now : Nat) :
@@ -394,7 +411,7 @@ theorem takeBatch_window (l : FLink F) (now : Nat) :
   · obtain ⟨-, -, -, h4, h5, -⟩ := foldl_register_frame l.queue l.core
     exact ⟨h4, h5, rfl⟩
 
-theorem ev_srtAck (hc : Bool) (l : FLink F) (ack : Int) (now : Nat) : Evolves hc l (l.srtAck ack now) := by
+theorem ev_srtAck (hc : Bool) (cto : Option Nat) (l : FLink F) (ack : Int) (now : Nat) : Evolves hc cto l (l.srtAck ack now) := by
   unfold FLink.srtAck
   have h := core_srtAck l.core ack now
   generalize l.core.srtAck ack now = r at h
@@ -403,75 +420,76 @@ theorem ev_srtAck (hc : Bool) (l : FLink F) (ack : Int) (now : Nat) : Evolves hc
   cases sample with
   | none => exact Evolves.of_core h
   | some rtt =>
-    exact (Evolves.of_core (hc := hc) h).trans (Evolves.of_soft rfl rfl rfl rfl rfl)
+    exact (Evolves.of_core (hc := hc) (cto := cto) h).trans (Evolves.of_soft rfl rfl rfl rfl rfl rfl)
 
-theorem ev_keepalivePacket (hc : Bool) (l : FLink F) (now : Nat) : Evolves hc l (l.keepalivePacket now).1 := by
+theorem ev_keepalivePacket (hc : Bool) (cto : Option Nat) (l : FLink F) (now : Nat) : Evolves hc cto l (l.keepalivePacket now).1 := by
   unfold FLink.keepalivePacket
   dsimp only
-  exact ⟨rfl, rfl, rfl, rfl, rfl, Iff.rfl, fun _ _ h => ⟨h.window, h.log, h.queue, h.inFlight, h.connected⟩⟩
+  exact ⟨Or.inl rfl, rfl, rfl, rfl, rfl, rfl, Iff.rfl, fun _ _ h => ⟨h.window, h.log, h.queue, h.inFlight, h.connected⟩⟩
 
 theorem recover_disconnected (c : Cong) (w : Int) (v : Bool) (now : Nat) : c.recover w false v now = (c, w) := by
   unfold Cong.recover; simp
 
-theorem ev_performWindowRecovery (hc : Bool) (l : FLink F) (now : Nat) :
-    Evolves hc l (l.performWindowRecovery now) := by
+theorem ev_performWindowRecovery (hc : Bool) (cto : Option Nat) (l : FLink F) (now : Nat) :
+    Evolves hc cto l (l.performWindowRecovery now) := by
   unfold FLink.performWindowRecovery
   dsimp only
-  refine ⟨rfl, rfl, rfl, rfl, rfl, Iff.rfl, fun _ _ h => ?_⟩
+  refine ⟨Or.inl rfl, rfl, rfl, rfl, rfl, rfl, Iff.rfl, fun _ _ h => ?_⟩
   have hcn := h.connected
   refine ⟨?_, h.log, h.queue, h.inFlight, h.connected⟩
   simp only [hcn, recover_disconnected]
   exact h.window
 
-theorem ev_updatePhase (hc : Bool) (l : FLink F) (now : Nat) : Evolves hc l (l.updatePhase now) := by
+theorem ev_updatePhase (hc : Bool) (cto : Option Nat) (l : FLink F) (now : Nat) : Evolves hc cto l (l.updatePhase now) := by
   unfold FLink.updatePhase
   dsimp only
   split
   · rename_i p e hp
     split
-    · exact ⟨rfl, rfl, rfl, rfl, rfl, by simp [hp], fun _ h => by rw [hp] at h; cases h⟩
-    · exact Evolves.refl hc l
+    · exact ⟨Or.inl rfl, rfl, rfl, rfl, rfl, rfl, by simp [hp], fun _ h => by rw [hp] at h; cases h⟩
+    · exact Evolves.refl hc cto l
   · rename_i hp
     split
-    · exact ⟨rfl, rfl, rfl, rfl, rfl, by simp [hp], fun _ h => by rw [hp] at h; cases h⟩
-    · exact Evolves.refl hc l
+    · exact ⟨Or.inl rfl, rfl, rfl, rfl, rfl, rfl, by simp [hp], fun _ h => by rw [hp] at h; cases h⟩
+    · exact Evolves.refl hc cto l
   · rename_i hp
     split
-    · exact ⟨rfl, rfl, rfl, rfl, rfl, by simp [hp], fun _ h => by rw [hp] at h; cases h⟩
-    · exact Evolves.refl hc l
-  · exact Evolves.refl hc l
+    · exact ⟨Or.inl rfl, rfl, rfl, rfl, rfl, rfl, by simp [hp], fun _ h => by rw [hp] at h; cases h⟩
+    · exact Evolves.refl hc cto l
+  · exact Evolves.refl hc cto l
 
-theorem ev_recomputeBatchRegime (hc : Bool) (l : FLink F) : Evolves hc l l.recomputeBatchRegime :=
-  Evolves.of_soft rfl rfl rfl rfl rfl
+theorem ev_recomputeBatchRegime (hc : Bool) (cto : Option Nat) (l : FLink F) : Evolves hc cto l l.recomputeBatchRegime :=
+  Evolves.of_soft rfl rfl rfl rfl rfl rfl
 
-theorem ev_handleKeepaliveResponse (hc : Bool) (l : FLink F) (data : Link.Bytes) (now : Nat) :
-    Evolves hc l (l.handleKeepaliveResponse data now).1 := by
+theorem ev_handleKeepaliveResponse (hc : Bool) (cto : Option Nat) (l : FLink F) (data : Link.Bytes) (now : Nat) :
+    Evolves hc cto l (l.handleKeepaliveResponse data now).1 := by
   unfold FLink.handleKeepaliveResponse
   split
-  · exact Evolves.refl hc l
+  · exact Evolves.refl hc cto l
   · split
     · dsimp only
-      split <;> exact Evolves.of_soft rfl rfl rfl rfl rfl
-    · exact Evolves.of_soft rfl rfl rfl rfl rfl
+      split <;> exact Evolves.of_soft rfl rfl rfl rfl rfl rfl
+    · exact Evolves.of_soft rfl rfl rfl rfl rfl rfl
 
-theorem ev_recordRttProbe (hc : Bool) (l : FLink F) : Evolves hc l l.recordRttProbe := by
+theorem ev_recordRttProbe (hc : Bool) (cto : Option Nat) (l : FLink F) : Evolves hc cto l l.recordRttProbe := by
   unfold FLink.recordRttProbe
   split
   · rename_i p e hp
     split
-    · exact ⟨rfl, rfl, rfl, rfl, rfl, by simp [hp], fun _ h => by rw [hp] at h; cases h⟩
-    · exact ⟨rfl, rfl, rfl, rfl, rfl, by simp [hp], fun _ h => by rw [hp] at h; cases h⟩
-  · exact Evolves.refl hc l
+    · exact ⟨Or.inl rfl, rfl, rfl, rfl, rfl, rfl, by simp [hp], fun _ h => by rw [hp] at h; cases h⟩
+    · exact ⟨Or.inl rfl, rfl, rfl, rfl, rfl, rfl, by simp [hp], fun _ h => by rw [hp] at h; cases h⟩
+  · exact Evolves.refl hc cto l
 
 /-- Stamps on fields outside the accounting: `last_received`, `last_sent`, the delivery proof. -/
-theorem ev_stamps (hc : Bool) (l : FLink F) (lr ls : Option Nat) (pm : Nat) :
-    Evolves hc l { l with core := { l.core with lastReceived := lr, lastSent := ls, proofMs := pm } } :=
-  ⟨rfl, rfl, rfl, rfl, rfl, Iff.rfl, fun _ _ h => ⟨h.window, h.log, h.queue, h.inFlight, h.connected⟩⟩
+theorem ev_stamps (hc : Bool) (cto : Option Nat) (l : FLink F) (lr ls : Option Nat) (pm : Nat) :
+    Evolves hc cto l { l with core := { l.core with lastReceived := lr, lastSent := ls, proofMs := pm } } :=
+  ⟨Or.inl rfl, rfl, rfl, rfl, rfl, rfl, Iff.rfl, fun _ _ h => ⟨h.window, h.log, h.queue, h.inFlight, h.connected⟩⟩
 
 /-! ### tear-down and reconnect -/
 
 /-- `l'` is a torn-down version of `l`: reconnection bookkeeping kept, accounting clean. -/
-structure Torn (l l' : FLink F) : Prop where
+structure Torn (cto : Option Nat) (l l' : FLink F) : Prop where
+  timeout : TOk cto l l'
   established : l'.established = l.established
   lastAttempt : l'.lastAttemptMs = l.lastAttemptMs
   failCount : l'.failCount = l.failCount
@@ -483,20 +501,20 @@ theorem clean_markForRecovery (l : FLink F) : Clean l.markForRecovery := by
   have hI := wconsts.2.2.1
   exact ⟨hI, rfl, rfl, rfl, rfl⟩
 
-theorem torn_markForRecovery (l : FLink F) : Torn l l.markForRecovery :=
-  ⟨rfl, rfl, rfl, rfl, rfl, clean_markForRecovery l⟩
+theorem torn_markForRecovery (cto : Option Nat) (l : FLink F) : Torn cto l l.markForRecovery :=
+  ⟨Or.inl rfl, rfl, rfl, rfl, rfl, rfl, clean_markForRecovery l⟩
 
-theorem Torn.of_evolves {hc : Bool} {a b c : FLink F} (h1 : Evolves hc a b) (h2 : Torn b c) : Torn a c :=
-  ⟨h2.established.trans h1.established, h2.lastAttempt.trans h1.lastAttempt,
+theorem Torn.of_evolves {hc : Bool} {cto : Option Nat} {a b c : FLink F} (h1 : Evolves hc cto a b) (h2 : Torn cto b c) : Torn cto a c :=
+  ⟨h1.timeout.trans h2.timeout, h2.established.trans h1.established, h2.lastAttempt.trans h1.lastAttempt,
    h2.failCount.trans h1.failCount, h2.connId.trans h1.connId, h2.phase, h2.clean⟩
 
-theorem Torn.then_evolves {a b c : FLink F} (h1 : Torn a b) (h2 : Evolves true b c) : Torn a c :=
-  ⟨h2.established.trans h1.established, h2.lastAttempt.trans h1.lastAttempt,
+theorem Torn.then_evolves {cto : Option Nat} {a b c : FLink F} (h1 : Torn cto a b) (h2 : Evolves true cto b c) : Torn cto a c :=
+  ⟨h1.timeout.trans h2.timeout, h2.established.trans h1.established, h2.lastAttempt.trans h1.lastAttempt,
    h2.failCount.trans h1.failCount, h2.connId.trans h1.connId, h2.phaseReg.mpr h1.phase,
    h2.clean rfl h1.phase h1.clean⟩
 
-theorem Torn.then_torn {a b c : FLink F} (h1 : Torn a b) (h2 : Torn b c) : Torn a c :=
-  ⟨h2.established.trans h1.established, h2.lastAttempt.trans h1.lastAttempt,
+theorem Torn.then_torn {cto : Option Nat} {a b c : FLink F} (h1 : Torn cto a b) (h2 : Torn cto b c) : Torn cto a c :=
+  ⟨h1.timeout.trans h2.timeout, h2.established.trans h1.established, h2.lastAttempt.trans h1.lastAttempt,
    h2.failCount.trans h1.failCount, h2.connId.trans h1.connId, h2.phase, h2.clean⟩
 
 /-- The link part of the reconnect branch of housekeeping (`record_attempt`, `reconnect_uplink` =
@@ -507,8 +525,8 @@ def reconnectLink (l : FLink F) (now : Nat) : FLink F :=
 
 def withSent (l : FLink F) (t : Option Nat) : FLink F := { l with core := { l.core with lastSent := t } }
 
-theorem ev_withSent (hc : Bool) (l : FLink F) (t : Option Nat) : Evolves hc l (withSent l t) :=
-  ⟨rfl, rfl, rfl, rfl, rfl, Iff.rfl, fun _ _ h => ⟨h.window, h.log, h.queue, h.inFlight, h.connected⟩⟩
+theorem ev_withSent (hc : Bool) (cto : Option Nat) (l : FLink F) (t : Option Nat) : Evolves hc cto l (withSent l t) :=
+  ⟨Or.inl rfl, rfl, rfl, rfl, rfl, rfl, Iff.rfl, fun _ _ h => ⟨h.window, h.log, h.queue, h.inFlight, h.connected⟩⟩
 
 theorem recordAttempt_fields (l : FLink F) (now : Nat) :
     (l.recordAttempt now).lastAttemptMs = now ∧ (l.recordAttempt now).established = l.established ∧
@@ -655,5 +673,428 @@ theorem hkLinksGo_links (classic : Bool) (now : Nat) (ls : List (FLink F)) (i : 
     cases rest[k]? with
     | none => rfl
     | some x => simp only [Option.map_some]; congr 2; omega
+
+/-! ## 5. `handle_housekeeping` in stages -/
+
+/-- Stage 1: clear a timed-out pending REG2 wait, complete probing (which resets the grace window of
+the chosen link). -/
+def hkP1 (s : Sys F) (now : Nat) : Reg.Reg × List (FLink F) :=
+  let reg0 := (Reg.clearPendingIfTimedOut s.reg now).1
+  if Reg.isProbing reg0 then
+    let r := (Reg.checkProbingComplete reg0 now).1
+    if !Reg.isProbing r then
+      match r.target with
+      | some idx =>
+        (r, s.links.mapIdx fun j l => if j = idx then { l with graceDeadline := now + Conn.STARTUP_GRACE_MS } else l)
+      | none => (r, s.links)
+    else (r, s.links)
+  else (reg0, s.links)
+
+/-- Stage 2: the per-link loop. -/
+def hkP2 (s : Sys F) (now : Nat) : List (FLink F) × Reg.Reg × List (Nat × Sys.Bytes) :=
+  hkLinksGo s.cfg.classic now (hkP1 s now).2 0 (hkP1 s now).1
+
+def hkP4 (s : Sys F) (now : Nat) : Reg.Reg × Reg.DriverSends :=
+  Reg.regDriverPendingSends
+    (Reg.updateActiveConnections (hkP2 s now).2.1 ((hkP2 s now).1.map (·.core.connected))) now
+
+def hkP5 (s : Sys F) (now : Nat) : List (FLink F) × List (Nat × Sys.Bytes) :=
+  match (hkP4 s now).2.reg1 with
+  | some (idx, pkt) =>
+    match (hkP2 s now).1[idx]? with
+    | some l => (setAt (hkP2 s now).1 idx { l with core := { l.core with lastSent := some now } }, [(l.core.connId, pkt)])
+    | none => ((hkP2 s now).1, [])
+  | none => ((hkP2 s now).1, [])
+
+def hkP6 (s : Sys F) (now : Nat) : List (FLink F) × List (Nat × Sys.Bytes) :=
+  match (hkP4 s now).2.broadcastReg2 with
+  | some pkt => ((hkP5 s now).1.map fun (l : FLink F) => { l with core := { l.core with lastSent := some now } },
+                 (hkP5 s now).1.map fun (l : FLink F) => (l.core.connId, pkt))
+  | none => ((hkP5 s now).1, [])
+
+theorem hk_eq (s : Sys F) (now : Nat) :
+    (handleHousekeeping s now).1.links = (hkP6 s now).1 ∧
+    (handleHousekeeping s now).1.reg = (hkP4 s now).1 ∧
+    (handleHousekeeping s now).2.wire = (hkP2 s now).2.2 ++ (hkP5 s now).2 ++ (hkP6 s now).2 ∧
+    (handleHousekeeping s now).1.cfg = s.cfg ∧ (handleHousekeeping s now).1.failNext = s.failNext :=
+  ⟨rfl, rfl, rfl, rfl, rfl⟩
+
+/-- The link whose grace window stage 1 resets (probing completed in this very tick), if any. -/
+def hkGraceIdx (s : Sys F) (now : Nat) : Option Nat :=
+  let reg0 := (Reg.clearPendingIfTimedOut s.reg now).1
+  if Reg.isProbing reg0 then
+    let r := (Reg.checkProbingComplete reg0 now).1
+    if !Reg.isProbing r then r.target else none
+  else none
+
+def graceFix (g : Option Nat) (now j : Nat) (l : FLink F) : FLink F :=
+  if g = some j then { l with graceDeadline := now + Conn.STARTUP_GRACE_MS } else l
+
+theorem mapIdx_id' {α : Type} (ls : List α) (f : Nat → α → α) (h : ∀ j a, f j a = a) : ls.mapIdx f = ls := by
+  apply List.ext_getElem?
+  intro k
+  rw [List.getElem?_mapIdx]
+  cases ls[k]? with
+  | none => rfl
+  | some a => simp [h]
+
+theorem hkP1_links (s : Sys F) (now : Nat) :
+    (hkP1 s now).2 = s.links.mapIdx (graceFix (hkGraceIdx s now) now) := by
+  unfold hkP1 hkGraceIdx
+  dsimp only
+  split
+  · split
+    · split
+      · rename_i idx hidx
+        rw [hidx]
+        dsimp only
+        congr 1
+        funext j l
+        unfold graceFix
+        by_cases h : j = idx
+        · simp [h]
+        · have : ¬ idx = j := fun e => h e.symm
+          simp [h, this]
+      · rename_i hidx
+        rw [hidx]
+        exact (mapIdx_id' _ _ (fun j a => by simp [graceFix])).symm
+    · exact (mapIdx_id' _ _ (fun j a => by simp [graceFix])).symm
+  · exact (mapIdx_id' _ _ (fun j a => by simp [graceFix])).symm
+
+theorem clearPending_fields (r : Reg.Reg) (now : Nat) :
+    (Reg.clearPendingIfTimedOut r now).1.hasConnected = r.hasConnected ∧
+    (Reg.clearPendingIfTimedOut r now).1.probing = r.probing ∧
+    (Reg.clearPendingIfTimedOut r now).1.id = r.id ∧
+    (r.pending = none → (Reg.clearPendingIfTimedOut r now).1 = r) := by
+  unfold Reg.clearPendingIfTimedOut
+  split
+  · split
+    · exact ⟨rfl, rfl, rfl, fun h => by simp_all⟩
+    · exact ⟨rfl, rfl, rfl, fun _ => rfl⟩
+  · exact ⟨rfl, rfl, rfl, fun _ => rfl⟩
+
+theorem checkProbing_fields (r : Reg.Reg) (now : Nat) :
+    (Reg.checkProbingComplete r now).1.hasConnected = r.hasConnected ∧
+    (Reg.checkProbingComplete r now).1.pending = r.pending ∧
+    (Reg.checkProbingComplete r now).1.id = r.id := by
+  unfold Reg.checkProbingComplete
+  split
+  · exact ⟨rfl, rfl, rfl⟩
+  · dsimp only
+    split <;> exact ⟨rfl, rfl, rfl⟩
+
+theorem hkP1_reg (s : Sys F) (now : Nat) :
+    (hkP1 s now).1.hasConnected = s.reg.hasConnected ∧
+    (s.reg.pending = none → (hkP1 s now).1.pending = none) ∧
+    (hkP1 s now).1.id = s.reg.id := by
+  obtain ⟨c1, c2, c3, c4⟩ := clearPending_fields s.reg now
+  obtain ⟨d1, d2, d3⟩ := checkProbing_fields (Reg.clearPendingIfTimedOut s.reg now).1 now
+  have hp : s.reg.pending = none → (Reg.clearPendingIfTimedOut s.reg now).1.pending = none := by
+    intro h; rw [c4 h]; exact h
+  unfold hkP1
+  dsimp only
+  split
+  · split
+    · split
+      · exact ⟨d1.trans c1, fun h => d2.trans (hp h), d3.trans c3⟩
+      · exact ⟨d1.trans c1, fun h => d2.trans (hp h), d3.trans c3⟩
+    · exact ⟨d1.trans c1, fun h => d2.trans (hp h), d3.trans c3⟩
+  · exact ⟨c1, hp, c3⟩
+
+/-- No grace reset unless the manager was still probing when the tick began. -/
+theorem hkGraceIdx_none (s : Sys F) (now : Nat) (h : Reg.isProbing s.reg = false) : hkGraceIdx s now = none := by
+  obtain ⟨-, c2, -, -⟩ := clearPending_fields s.reg now
+  unfold hkGraceIdx
+  dsimp only
+  have : Reg.isProbing (Reg.clearPendingIfTimedOut s.reg now).1 = false := by
+    unfold Reg.isProbing at h ⊢
+    rw [c2]; exact h
+  rw [this]
+  simp
+
+theorem driver_hasConnected (r : Reg.Reg) (now : Nat) :
+    (Reg.regDriverPendingSends r now).1.hasConnected = r.hasConnected := by
+  unfold Reg.regDriverPendingSends Reg.driverReg1 Reg.driverBroadcast
+  dsimp only
+  repeat' split
+  all_goals rfl
+
+/-- **Housekeeping, link by link**: the record of link `j` after a tick is `hkLink` of its own record
+(after the possible grace reset), up to a `last_sent` stamp by the registration driver. -/
+theorem hk_links (s : Sys F) (now : Nat) :
+    ∃ τ : Nat → Option Nat → Option Nat,
+      (handleHousekeeping s now).1.links =
+        s.links.mapIdx (fun j l =>
+          let x := hkLink s.cfg.classic now (hkP1 s now).1.pending j (graceFix (hkGraceIdx s now) now j l)
+          withSent x (τ j x.core.lastSent)) := by
+  rw [(hk_eq s now).1]
+  have h2 : (hkP2 s now).1 = s.links.mapIdx (fun j l =>
+      hkLink s.cfg.classic now (hkP1 s now).1.pending j (graceFix (hkGraceIdx s now) now j l)) := by
+    unfold hkP2
+    rw [(hkLinksGo_links _ _ _ _ _).1, hkP1_links, List.mapIdx_mapIdx]
+    congr 1
+    funext j l
+    simp
+  -- stage 5: at most one extra stamp
+  have h5 : ∃ τ5 : Nat → Option Nat → Option Nat, (hkP5 s now).1 = (hkP2 s now).1.mapIdx (fun j l => withSent l (τ5 j l.core.lastSent)) := by
+    unfold hkP5
+    split
+    · split
+      · rename_i _ idx pkt hreg1 _ l hl
+        refine ⟨fun j t => if j = idx then some now else t, ?_⟩
+        dsimp only
+        unfold setAt
+        apply List.ext_getElem?
+        intro k
+        rw [List.getElem?_mapIdx, List.getElem?_mapIdx]
+        cases hk : (hkP2 s now).1[k]? with
+        | none => rfl
+        | some x =>
+          simp only [Option.map_some]
+          by_cases hki : k = idx
+          · subst hki
+            rw [hl] at hk
+            cases hk
+            simp [withSent]
+          · simp [hki, withSent]
+      · exact ⟨fun _ t => t, (mapIdx_id' _ _ (fun j a => rfl)).symm⟩
+    · exact ⟨fun _ t => t, (mapIdx_id' _ _ (fun j a => rfl)).symm⟩
+  obtain ⟨τ5, h5⟩ := h5
+  have h6 : ∃ τ6 : Nat → Option Nat → Option Nat, (hkP6 s now).1 = (hkP2 s now).1.mapIdx (fun j l => withSent l (τ6 j l.core.lastSent)) := by
+    unfold hkP6
+    split
+    · refine ⟨fun _ _ => some now, ?_⟩
+      dsimp only
+      rw [h5]
+      apply List.ext_getElem?
+      intro k
+      simp only [List.getElem?_map, List.getElem?_mapIdx]
+      cases (hkP2 s now).1[k]? with
+      | none => rfl
+      | some x => rfl
+    · exact ⟨τ5, h5⟩
+  obtain ⟨τ6, h6⟩ := h6
+  refine ⟨τ6, ?_⟩
+  rw [h6, h2, List.mapIdx_mapIdx]
+  rfl
+
+theorem hk_hasConnected (s : Sys F) (now : Nat) :
+    (handleHousekeeping s now).1.reg.hasConnected = s.reg.hasConnected := by
+  rw [(hk_eq s now).2.1]
+  unfold hkP4
+  rw [driver_hasConnected]
+  show (hkP2 s now).2.1.hasConnected = _
+  unfold hkP2
+  rw [(hkLinksGo_links _ _ _ _ _).2.2.1]
+  exact (hkP1_reg s now).1
+
+/-! ## 6. The data path: threshold flush, send-failure injection -/
+
+/-- `fn'` is `fn` with some injected failures consumed. -/
+def FnLe (fn fn' : List Nat) : Prop := ∀ a, fn'.count a ≤ fn.count a
+
+theorem FnLe.refl (fn : List Nat) : FnLe fn fn := fun _ => Nat.le_refl _
+theorem FnLe.trans {a b c : List Nat} (h1 : FnLe a b) (h2 : FnLe b c) : FnLe a c :=
+  fun x => Nat.le_trans (h2 x) (h1 x)
+
+theorem fnLe_erase (fn : List Nat) (a : Nat) : FnLe fn (fn.erase a) := by
+  intro x
+  rw [List.count_erase]
+  omega
+
+theorem count_erase_lt (fn : List Nat) (a : Nat) (h : fn.contains a = true) :
+    (fn.erase a).count a < fn.count a := by
+  rw [List.count_erase]
+  have : 0 < fn.count a := List.count_pos_iff.2 (by simpa using h)
+  simp
+  omega
+
+theorem sendBatch_cases (l : FLink F) (now : Nat) (fn : List Nat) :
+    (sendConnectionBatch l now fn).1 = (l.takeBatch now).1 ∧
+    (((sendConnectionBatch l now fn).2.2.1 = true ∧ (sendConnectionBatch l now fn).2.2.2 = fn) ∨
+     ((sendConnectionBatch l now fn).2.2.1 = false ∧ fn.contains l.core.connId = true ∧
+      (sendConnectionBatch l now fn).2.2.2 = fn.erase l.core.connId)) := by
+  unfold sendConnectionBatch
+  dsimp only
+  split
+  · exact ⟨rfl, Or.inl ⟨rfl, rfl⟩⟩
+  · split
+    · rename_i h
+      exact ⟨rfl, Or.inr ⟨rfl, h, rfl⟩⟩
+    · exact ⟨rfl, Or.inl ⟨rfl, rfl⟩⟩
+
+/-- What the data path may do to a link: evolve, or tear it down after consuming an injected send
+failure for its conn id. -/
+def SendStep (hc : Bool) (cto : Option Nat) (fn fn' : List Nat) (l l' : FLink F) : Prop :=
+  Evolves hc cto l l' ∨ (Torn cto l l' ∧ fn'.count l.core.connId < fn.count l.core.connId)
+
+theorem SendStep.refl (hc : Bool) (cto : Option Nat) (fn fn' : List Nat) (l : FLink F) : SendStep hc cto fn fn' l l :=
+  Or.inl (Evolves.refl hc cto l)
+
+theorem SendStep.mono {hc : Bool} {cto : Option Nat} {fn0 fn fn' fn1 : List Nat} {l l' : FLink F}
+    (h : SendStep hc cto fn fn' l l') (h0 : FnLe fn0 fn) (h1 : FnLe fn' fn1) : SendStep hc cto fn0 fn1 l l' := by
+  rcases h with h | ⟨h, hlt⟩
+  · exact Or.inl h
+  · exact Or.inr ⟨h, Nat.lt_of_le_of_lt (h1 _) (Nat.lt_of_lt_of_le hlt (h0 _))⟩
+
+theorem SendStep.of_evolves {hc : Bool} {cto : Option Nat} {fn fn' : List Nat} {a b c : FLink F}
+    (h1 : Evolves hc cto a b) (h2 : SendStep hc cto fn fn' b c) : SendStep hc cto fn fn' a c := by
+  rcases h2 with h | ⟨h, hlt⟩
+  · exact Or.inl (h1.trans h)
+  · exact Or.inr ⟨Torn.of_evolves h1 h, by rw [← h1.connId]; exact hlt⟩
+
+theorem SendStep.comp {cto : Option Nat} {fn fn1 fn2 : List Nat} {a b c : FLink F}
+    (h1 : SendStep true cto fn fn1 a b) (h2 : SendStep true cto fn1 fn2 b c)
+    (l1 : FnLe fn fn1) (l2 : FnLe fn1 fn2) : SendStep true cto fn fn2 a c := by
+  rcases h1 with h1 | ⟨h1, lt1⟩
+  · exact (SendStep.of_evolves h1 h2).mono l1 (FnLe.refl _)
+  · rcases h2 with h2 | ⟨h2, lt2⟩
+    · exact Or.inr ⟨h1.then_evolves h2, Nat.lt_of_le_of_lt (l2 _) lt1⟩
+    · exact Or.inr ⟨h1.then_torn h2, Nat.lt_of_le_of_lt (l2 _) lt1⟩
+
+/-- Queue one datagram on a link, flush on the regime threshold, tear down on a failed flush. -/
+def fwdLink (l : FLink F) (pkt : Link.Bytes) (seq : Option Nat) (now : Nat) (fn : List Nat) :
+    FLink F × List (Nat × Sys.Bytes) × List Nat :=
+  if (l.queueDataPacket pkt seq now).2 then
+    let r := sendConnectionBatch (l.queueDataPacket pkt seq now).1 now fn
+    (if r.2.2.1 then r.1 else r.1.markForRecovery, r.2.1, r.2.2.2)
+  else ((l.queueDataPacket pkt seq now).1, [], fn)
+
+theorem fwdLink_step (hc : Bool) (cto : Option Nat) (l : FLink F) (pkt : Link.Bytes) (seq : Option Nat) (now : Nat)
+    (fn : List Nat) (hside : hc = true → l.core.phase ≠ .registering ∨ l.core.connected = true) :
+    SendStep hc cto fn (fwdLink l pkt seq now fn).2.2 l (fwdLink l pkt seq now fn).1 ∧
+    FnLe fn (fwdLink l pkt seq now fn).2.2 := by
+  have hq := ev_queue hc cto l pkt seq now hside
+  unfold fwdLink
+  split
+  · dsimp only
+    obtain ⟨e1, e2⟩ := sendBatch_cases (l.queueDataPacket pkt seq now).1 now fn
+    have ht := ev_takeBatch hc cto (l.queueDataPacket pkt seq now).1 now
+    rcases e2 with ⟨ok, efn⟩ | ⟨ok, hcont, efn⟩
+    · rw [ok, efn, e1]
+      exact ⟨Or.inl (hq.trans ht), FnLe.refl _⟩
+    · rw [ok, efn, e1]
+      refine ⟨Or.inr ⟨Torn.of_evolves (hq.trans ht) (torn_markForRecovery cto _), ?_⟩, fnLe_erase _ _⟩
+      have hid : (l.queueDataPacket pkt seq now).1.core.connId = l.core.connId := rfl
+      rw [hid] at hcont ⊢
+      exact count_erase_lt fn _ hcont
+  · exact ⟨Or.inl hq, FnLe.refl _⟩
+
+theorem pw_setAt {R : FLink F → FLink F → Prop} (hr : ∀ a, R a a) (ls : List (FLink F)) (i : Nat)
+    (l x : FLink F) (hl : ls[i]? = some l) (hx : R l x) : PW R ls (setAt ls i x) := by
+  unfold setAt
+  induction ls generalizing i with
+  | nil => exact .nil
+  | cons d rest ih =>
+    rw [List.mapIdx_cons]
+    cases i with
+    | zero =>
+      simp at hl; subst hl
+      refine .cons (by simpa using hx) ?_
+      have : (List.mapIdx (fun i c => if i + 1 = 0 then x else c) rest) = rest :=
+        mapIdx_id' _ _ (fun j a => by simp)
+      rw [this]; exact PW.refl hr rest
+    | succ i =>
+      refine .cons (by simpa using hr d) ?_
+      have hl' : rest[i]? = some l := by simpa using hl
+      simpa using ih i hl'
+
+theorem forwardVia_eq (s : Sys F) (sel : Nat) (pkt : Sys.Bytes) (seq : Option Nat) (now : Nat) (l : FLink F)
+    (hl : s.links[sel]? = some l) :
+    (forwardVia s sel pkt seq now).1.links = setAt s.links sel (fwdLink l pkt seq now s.failNext).1 ∧
+    (forwardVia s sel pkt seq now).1.failNext = (fwdLink l pkt seq now s.failNext).2.2 ∧
+    (forwardVia s sel pkt seq now).1.reg = s.reg ∧ (forwardVia s sel pkt seq now).1.cfg = s.cfg := by
+  unfold forwardVia fwdLink
+  rw [hl]
+  dsimp only
+  split <;> exact ⟨rfl, rfl, rfl, rfl⟩
+
+theorem forwardVia_none (s : Sys F) (sel : Nat) (pkt : Sys.Bytes) (seq : Option Nat) (now : Nat)
+    (hl : s.links[sel]? = none) : (forwardVia s sel pkt seq now).1 = s := by
+  unfold forwardVia
+  rw [hl]
+
+theorem forwardVia_pw (hc : Bool) (cto : Option Nat) (s : Sys F) (sel : Nat) (pkt : Sys.Bytes) (seq : Option Nat) (now : Nat)
+    (hside : hc = true → ∀ l, s.links[sel]? = some l → l.core.phase ≠ .registering) :
+    PW (SendStep hc cto s.failNext (forwardVia s sel pkt seq now).1.failNext) s.links
+      (forwardVia s sel pkt seq now).1.links ∧
+    FnLe s.failNext (forwardVia s sel pkt seq now).1.failNext ∧
+    (forwardVia s sel pkt seq now).1.reg = s.reg ∧ (forwardVia s sel pkt seq now).1.cfg = s.cfg := by
+  cases hl : s.links[sel]? with
+  | none =>
+    rw [forwardVia_none s sel pkt seq now hl]
+    exact ⟨PW.refl (SendStep.refl _ _ _ _) _, FnLe.refl _, rfl, rfl⟩
+  | some l =>
+    obtain ⟨e1, e2, e3, e4⟩ := forwardVia_eq s sel pkt seq now l hl
+    obtain ⟨f1, f2⟩ := fwdLink_step hc cto l pkt seq now s.failNext (fun h => Or.inl (hside h l hl))
+    rw [e1, e2]
+    exact ⟨pw_setAt (SendStep.refl _ _ _ _) _ _ l _ hl f1, f2, e3, e4⟩
+
+/-- One iteration of `send_stall_probes` on a gated, connected link other than the chosen one. -/
+def probeLink (l : FLink F) (pkt : Link.Bytes) (seq : Option Nat) (now : Nat) (fn : List Nat) :
+    FLink F × List (Nat × Sys.Bytes) × List Nat :=
+  if !l.stallProbeDue.2 then (l.stallProbeDue.1, [], fn) else fwdLink l.stallProbeDue.1 pkt seq now fn
+
+theorem stallProbeDue_core (l : FLink F) : l.stallProbeDue.1.core = l.core := by
+  unfold FLink.stallProbeDue
+  dsimp only
+  split <;> rfl
+
+theorem probeLink_step (hc : Bool) (cto : Option Nat) (l : FLink F) (pkt : Link.Bytes) (seq : Option Nat) (now : Nat)
+    (fn : List Nat) (hconn : l.core.connected = true) :
+    SendStep hc cto fn (probeLink l pkt seq now fn).2.2 l (probeLink l pkt seq now fn).1 ∧
+    FnLe fn (probeLink l pkt seq now fn).2.2 := by
+  have hp := ev_stallProbeDue hc cto l
+  unfold probeLink
+  split
+  · exact ⟨Or.inl hp, FnLe.refl _⟩
+  · obtain ⟨f1, f2⟩ := fwdLink_step hc cto l.stallProbeDue.1 pkt seq now fn
+      (fun _ => Or.inr (by rw [stallProbeDue_core]; exact hconn))
+    exact ⟨SendStep.of_evolves hp f1, f2⟩
+
+theorem stallProbesGo_cons (pkt : Sys.Bytes) (seq : Option Nat) (now sel : Nat) (l : FLink F)
+    (rest : List (FLink F)) (i : Nat) (fn : List Nat) :
+    stallProbesGo pkt seq now sel (l :: rest) i fn =
+      if i = sel || !l.stallGated || !l.core.connected then
+        (l :: (stallProbesGo pkt seq now sel rest (i + 1) fn).1,
+         (stallProbesGo pkt seq now sel rest (i + 1) fn).2.1,
+         (stallProbesGo pkt seq now sel rest (i + 1) fn).2.2)
+      else
+        ((probeLink l pkt seq now fn).1 ::
+            (stallProbesGo pkt seq now sel rest (i + 1) (probeLink l pkt seq now fn).2.2).1,
+         (probeLink l pkt seq now fn).2.1 ++
+            (stallProbesGo pkt seq now sel rest (i + 1) (probeLink l pkt seq now fn).2.2).2.1,
+         (stallProbesGo pkt seq now sel rest (i + 1) (probeLink l pkt seq now fn).2.2).2.2) := by
+  rw [stallProbesGo]
+  split
+  · rfl
+  · unfold probeLink fwdLink
+    dsimp only
+    cases hdue : l.stallProbeDue.2
+    · simp only [Bool.not_false, if_true, List.nil_append]
+    · simp only [Bool.not_true, Bool.false_eq_true, if_false]
+      cases hnf : (l.stallProbeDue.1.queueDataPacket pkt seq now).2
+      · simp only [Bool.false_eq_true, if_false, List.nil_append]
+      · simp only [if_true]
+
+theorem stallProbes_pw (hc : Bool) (cto : Option Nat) (pkt : Sys.Bytes) (seq : Option Nat) (now sel : Nat)
+    (ls : List (FLink F)) (i : Nat) (fn : List Nat) :
+    PW (SendStep hc cto fn (stallProbesGo pkt seq now sel ls i fn).2.2) ls (stallProbesGo pkt seq now sel ls i fn).1 ∧
+    FnLe fn (stallProbesGo pkt seq now sel ls i fn).2.2 := by
+  induction ls generalizing i fn with
+  | nil => exact ⟨.nil, FnLe.refl _⟩
+  | cons l rest ih =>
+    rw [stallProbesGo_cons]
+    split
+    · obtain ⟨h1, h2⟩ := ih (i + 1) fn
+      exact ⟨.cons (SendStep.refl _ _ _ _ _) h1, h2⟩
+    · rename_i hcond
+      have hconn : l.core.connected = true := by
+        simp only [Bool.or_eq_true, Bool.not_eq_true', not_or] at hcond
+        simpa using hcond.2
+      obtain ⟨p1, p2⟩ := probeLink_step hc cto l pkt seq now fn hconn
+      obtain ⟨h1, h2⟩ := ih (i + 1) (probeLink l pkt seq now fn).2.2
+      dsimp only
+      exact ⟨.cons (p1.mono (FnLe.refl _) h2) (h1.mono (fun a b h => h.mono p2 (FnLe.refl _))), p2.trans h2⟩
 
 end Srtla.Hk
